@@ -974,6 +974,18 @@ def value_attr(interp, obj, attr):
             return Builtin("append", sapp)
         if attr == "copy":
             return Builtin("copy", lambda interp_: obj.copy())
+        if attr == "remove":
+            def srem(interp_, x):
+                # [A] l.remove(x) removes the FIRST occurrence; for x = l[0] (syntactically) that is position 0: the tail remains
+                first = obj.elem(z3.IntVal(0))
+                if not (is_sym(x) and z3.simplify(to_z3(x)).eq(z3.simplify(to_z3(first)))):
+                    raise Undecided("list.remove(x) on a list of symbolic length with x other than its first element")
+                interp_.path.oblige(interp_.ob_name("remove-from-non-empty"), to_z3(obj.length) > 0)
+                used("l.remove(l[0]) on a symbolic-length list = the list without its first element")
+                interp_.note_write(obj, "remove")
+                t = obj.tail(1)
+                obj.length, obj.elem = t.length, t.elem
+            return Builtin("remove", srem)
         raise Undecided(f"list.{attr} on a list of symbolic length")
     if isinstance(obj, list):
         if attr == "append":
@@ -1273,6 +1285,10 @@ def python_builtin(interp, name):
     def b_list(i, x=()):
         if isinstance(x, _SymList) and concrete_int(x.length) is None:
             return x.copy()  # list(l) of a list of symbolic length: a fresh list with the same elements
+        if isinstance(x, NDArr) and x.ndim == 1 and concrete_int(x.shape[0]) is None:
+            used("list(<1-D array of symbolic length>) = the list of its entries in order (copy)")
+            snap = x.snapshot()
+            return _SymList(x.shape[0], lambda k, _s=snap: _s.get(to_z3(k)), "list(array)")
         return list(i.iterate(x))
 
     def b_tuple(i, x=()):
@@ -1281,6 +1297,15 @@ def python_builtin(interp, name):
     def b_set(i, x=()):
         vals = i.iterate(x)
         if any(is_sym(v) for v in vals):
+            if all((is_sym(v) and z3.is_int(v)) or (isinstance(v, int) and not isinstance(v, bool)) for v in vals):
+                # additive (C06, MixedStabilizer.mixture setter: `len(set([t.n_qubits ...])) == 1`): a set of symbolic INTEGERS -
+                # duplicates are removed by deciding pairwise equality on the path (forks); anything else stays Undecided
+                used("set() of symbolic ints: duplicates removed by deciding pairwise equality on the path (forks)")
+                out = []
+                for v in vals:
+                    if not any(i.path.decide(to_z3(v) == to_z3(u)) for u in out):
+                        out.append(v)
+                return set(out) if len(set(out)) == len(out) else out
             raise Undecided("set of symbolic values")
         return set(vals)
 
@@ -1296,6 +1321,11 @@ def python_builtin(interp, name):
         return d
 
     def b_enumerate(i, x, start=0):
+        h = i.hooks.get("enumerate")  # abstract sequences of a contract module (iterable of that module's own loop rule)
+        if h:
+            r = h(i, x, start)
+            if r is not None:
+                return r
         if isinstance(x, NDArr) and x.ndim == 1 and concrete_int(x.shape[0]) is None:
             # symbolic length: only usable as the iterable of a `for` under a loop contract (loops.trip_count)
             return Opaque("enumerate", (x, start))
@@ -1305,6 +1335,11 @@ def python_builtin(interp, name):
         return list(zip(*[i.iterate(x) for x in xs]))
 
     def b_sorted(i, x, key=None, reverse=False):
+        h = i.hooks.get("sorted")  # abstract sequences of a contract module (e.g. pyvc/gateseq.py: an unspecified re-ordering)
+        if h:
+            r = h(i, x, key, reverse)
+            if r is not None:
+                return r
         if isinstance(x, _SymList) and getattr(x, "increasing", False) and key is None and not reverse:
             used("sorted() of a list known to be strictly increasing = an equal new list")
             r = x.copy()
